@@ -2,7 +2,6 @@ package main
 
 import (
 	"fmt"
-	"strings"
 
 	"golang.org/x/tools/go/ssa"
 )
@@ -10,63 +9,44 @@ import (
 func init() {
 	register(&propDef{
 		id: "C14", run: runC14, minOblig: 6,
-		explanation: "Decides two structural clauses for md4 and ripemd160. (Sum leaves the running state usable) (*digest).Sum is receiver-pure: no store, copy, append or call that can write reaches memory of the receiver — the padding and length are written into a value copy of the digest, which has no reference-typed field (effect analysis over the SSA of Sum and, interprocedurally, of what it calls with receiver-derived arguments). (padding arithmetic) for every message length residue (lengths 0..255 and values around 2^61 and 2^64-1 evaluated in Go's fixed-width arithmetic) exactly one of the two padding writes is reachable and its length p satisfies 1 <= p <= 64 and (len + p) mod 64 = 56, so the length field always ends a block; the padding starts with 0x80. NOT decided: the compression functions, digest values, the little-endian length loop.",
-		assumptions: []string{"hasRefs: a struct copy is deep iff it has no pointer/slice/map/interface field"},
+		explanation: "Decides, for md4 and ripemd160, everything of 'Sum/Write feed the right blocks to the compression function' and nothing of the compression function itself. The hash implementation is found by role, not by name: the concrete type New returns as hash.Hash, its Sum and Write methods, its fields by type (64-byte block buffer, uint32 state words, uint64 byte count, buffer fill), and as compression function the function of the package that takes message bytes and updates the state words. (Sum leaves the running state usable) Sum is receiver-pure: no store, copy, append or call that can write reaches memory of the receiver — padding and length go into a value copy of the state, which has no reference-typed field (interprocedural effect analysis over the SSA of Sum and what it calls with receiver-derived arguments). (padding) Sum is interpreted abstractly, every in-package callee (Write, helpers) interpreted in place and copy / clear / append / encoding/binary Put* modelled, for every byte count 0..255 and values around 2^61 and 2^64-1, with the buffered message bytes as distinct symbolic markers: the blocks that reach the compression function are exactly buffered bytes ‖ 0x80 ‖ zeros ‖ bit length (byte count * 8 mod 2^64, little-endian) in the minimal number (1 or 2) of 64-byte blocks, and Sum returns instead of panicking. This is independent of how the padding is produced (one, two or three Writes, a helper, or writing into the block buffer directly). (block buffering) Write is interpreted the same way for every buffer fill 0..63 and write length 0..200 (plus 255..257, 1000, 4099 at some fills), the written bytes being markers too: the blocks compressed are exactly the first 64*floor((fill+len)/64) bytes of buffered ‖ written in stream order, the remaining (fill+len) mod 64 bytes end up at the start of the buffer, fill becomes (fill+len) mod 64, the byte count grows by len, and len is returned — which also re-establishes the invariant fill = count mod 64 under which Sum is interpreted. NOT decided: the compression functions (rounds, constants, message-word order), the initial state set by Reset/New, the byte order in which Sum serialises the state words.",
+		assumptions: []string{
+			"hasRefs: a struct copy is deep iff it has no pointer/slice/map/interface field",
+			"the compression function consumes the whole 64-byte blocks of its argument in order, ignores a trailing partial block and, if it has an integer result, returns the number of bytes consumed",
+			"buffer fill = byte count mod 64 holds when Sum is entered (zero state / Reset as base case, preserved by Write as decided by C14.buffering)",
+		},
 	})
-	tech("C14", "interprocedural receiver-effect (purity) analysis on SSA; finite-domain evaluation of the padding length expression over all length residues")
+	tech("C14", "interprocedural receiver-effect (purity) analysis on SSA; flow-sensitive abstract interpretation of Sum and Write with symbolic message bytes, observing the blocks that reach the compression function, over all buffer fills / length residues")
 }
 
 func runC14(c *Ctx) {
 	pur := newPurity()
-	for _, pk := range []struct{ pkg, lenField string }{{"md4", "len"}, {"ripemd160", "tc"}} {
-		f := c.fn(pk.pkg, "(*digest).Sum")
-		if f == nil {
+	for _, pkg := range []string{"md4", "ripemd160"} {
+		im := c14FindImpl(c, pkg)
+		if im == nil {
 			continue
 		}
+		f := im.sum
+		tn := im.named.Obj().Name()
 		ok, why, at := pur.paramPure(f, 0, 0)
 		var pos poser = f
 		if at != nil {
 			pos = at
 		}
-		c.check(ok, "C14.sum-pure", pk.pkg+".(*digest).Sum", pos, "Sum cannot write to the receiver's state (works on a value copy without reference fields)", "Sum writes to the running state: "+why+" — a later Write/Sum continues from a corrupted state")
-		// the digest type has no reference fields (so the copy is deep)
-		if t := c.namedType(pk.pkg, "digest"); t != nil {
-			c.check(!hasRefs(t, 0), "C14.sum-pure", pk.pkg+".digest is reference-free", f, "value copy of digest is a deep copy", "digest has a reference-typed field: a value copy shares storage with the original")
-		}
-		c14Padding(c, f, pk.pkg, pk.lenField)
+		c.check(ok, "C14.sum-pure", pkg+"."+tn+".Sum", pos, "Sum cannot write to the receiver's state (works on a value copy without reference fields)", "Sum writes to the running state: "+why+" — a later Write/Sum continues from a corrupted state")
+		// the state type has no reference fields (so the copy is deep)
+		c.check(!hasRefs(im.named, 0), "C14.sum-pure", pkg+"."+tn+" is reference-free", f, "value copy of the hash state is a deep copy", "the hash state has a reference-typed field: a value copy shares storage with the original")
+		c14Padding(c, im)
+		c14Buffering(c, im)
 	}
 }
 
-func c14Padding(c *Ctx, f *ssa.Function, pkg, lenField string) {
-	// loads of the length field
-	var lenLoads []ssa.Value
-	allInstrs(f, func(in ssa.Instruction) {
-		if u, ok := in.(*ssa.UnOp); ok {
-			if _, fld, _, okf := fieldOf(u); okf && fld == lenField {
-				lenLoads = append(lenLoads, u)
-			}
-		}
-	})
-	// the padding writes: calls of (*digest).Write whose argument is a slice of the local tmp with low 0 and a non-constant high
-	type pw struct {
-		call ssa.CallInstruction
-		sl   *ssa.Slice
-	}
-	var pws []pw
-	for _, ci := range calls(f, func(n string) bool { return strings.HasSuffix(n, "digest).Write") }) {
-		sl, ok := ci.Common().Args[1].(*ssa.Slice)
-		if !ok || sl.High == nil {
-			continue
-		}
-		if _, isK := constInt(sl.High); isK {
-			continue
-		}
-		pws = append(pws, pw{ci, sl})
-	}
-	if len(lenLoads) == 0 || len(pws) != 2 {
-		c.undecided("C14.padding", pkg+" padding writes", f, fmt.Sprintf("expected loads of d.%s and two variable-length padding writes; found %d/%d", lenField, len(lenLoads), len(pws)))
-		return
-	}
+func c14RecvKey(f *ssa.Function, field string) string { return f.Params[0].Name() + "." + field }
+
+// c14Padding: for every byte count, the blocks Sum has compressed are the
+// buffered bytes followed by the MD-strengthening padding.
+func c14Padding(c *Ctx, im *c14Impl) {
+	f := im.sum
 	var lens []uint64
 	for i := uint64(0); i < 256; i++ {
 		lens = append(lens, i)
@@ -77,47 +57,146 @@ func c14Padding(c *Ctx, f *ssa.Function, pkg, lenField string) {
 		}
 	}
 	bad := ""
+	var at poser = f
 	for _, L := range lens {
-		e := newEnv()
-		for _, v := range lenLoads {
-			e.bind(v, int64(L))
-		}
-		e.solve(f)
-		n := 0
-		for _, p := range pws {
-			if !e.reach[p.call.Block()] {
-				continue
-			}
-			n++
-			hi, ok := e.eval(p.sl.High)
-			if !ok {
-				bad = fmt.Sprintf("len=%d: padding length does not evaluate", L)
-				break
-			}
-			if hi < 1 || hi > 64 || (L+uint64(hi))%64 != 56 {
-				bad = fmt.Sprintf("len=%d: padding of %d bytes leaves (len+pad) mod 64 = %d, must be 56 with 1..64 bytes", L, hi, (L+uint64(hi))%64)
+		nx := int64(L % 64)
+		r := c14NewRun(im, f, nx)
+		w := r.walker()
+		w.state[c14RecvKey(f, im.fieldName(im.fLen))] = int64(L)
+		w.state[c14RecvKey(f, im.fieldName(im.fNx))] = nx
+		for _, p := range f.Params[1:] {
+			if c14IsByteSlice(p.Type()) {
+				w.env.bind(p, 0)
+				n := r.fresh("arg")
+				r.tag(w, p, n, 0, true)
 			}
 		}
-		if bad == "" && n != 1 {
-			bad = fmt.Sprintf("len=%d: %d padding writes reachable, expected exactly one", L, n)
+		end := w.walk(f.Blocks[0], nil)
+		id := fmt.Sprintf("byte count %d (%d buffered): ", L, nx)
+		var want []int64
+		for i := int64(0); i < nx; i++ {
+			want = append(want, c14Buf+i)
+		}
+		want = append(want, 0x80)
+		for (len(want)+8)%64 != 0 {
+			want = append(want, 0)
+		}
+		for i := uint(0); i < 8; i++ {
+			want = append(want, int64((L<<3)>>(8*i)&0xff))
+		}
+		switch {
+		case end == "panic":
+			bad = fmt.Sprintf("%sSum panics after %d block(s) were compressed (padded stream not ending on a block boundary, or an index out of range)", id, len(r.blocks))
+			if w.last != nil {
+				at = w.last
+			}
+		case end != "return":
+			c.undecided("C14.padding", im.pkg+" padding", f, id+"interpretation of Sum ended with "+end+": "+w.why)
+			return
+		case r.problem != "":
+			bad = id + r.problem
+		case w.oob:
+			bad = id + "a slice or index expression leaves its bounds"
+		default:
+			d, unknown := c14Diff(r.blocks, want)
+			if unknown {
+				c.undecided("C14.padding", im.pkg+" padding", f, id+"the interpretation could not determine the data compressed by Sum: "+d)
+				return
+			}
+			if d != "" {
+				bad = id + d + " — Sum must compress buffered bytes ‖ 0x80 ‖ zeros ‖ little-endian bit length, ending a block"
+			}
 		}
 		if bad != "" {
 			break
 		}
 	}
-	c.check(bad == "", "C14.padding", pkg+" padding length", f, fmt.Sprintf("%d lengths evaluated: 1..64 padding bytes, (len+pad) mod 64 = 56", len(lens)), bad)
-	// first padding byte 0x80: a store of 0x80 to tmp[0]
-	ok80 := false
-	allInstrs(f, func(in ssa.Instruction) {
-		if st, ok := in.(*ssa.Store); ok {
-			if k, isK := constInt(st.Val); isK && k == 0x80 {
-				if ia, ok := st.Addr.(*ssa.IndexAddr); ok {
-					if idx, isI := constInt(ia.Index); isI && idx == 0 && ia.X == pws[0].sl.X {
-						ok80 = true
+	c.check(bad == "", "C14.padding", im.pkg+" padding", at, fmt.Sprintf("%d byte counts interpreted: buffered bytes ‖ 0x80 ‖ zeros ‖ 64-bit little-endian bit length reach the compression function in the minimal number of blocks", len(lens)), bad)
+}
+
+// c14Buffering: for every buffer fill and write length, Write compresses the
+// whole blocks of buffered ‖ written in order and keeps the remainder.
+func c14Buffering(c *Ctx, im *c14Impl) {
+	f := im.write
+	var p *ssa.Parameter
+	for _, q := range f.Params[1:] {
+		if c14IsByteSlice(q.Type()) {
+			p = q
+		}
+	}
+	if p == nil {
+		c.undecided("C14.buffering", im.pkg+" Write", f, "Write has no byte-slice parameter")
+		return
+	}
+	lenKey, nxKey := c14RecvKey(f, im.fieldName(im.fLen)), c14RecvKey(f, im.fieldName(im.fNx))
+	bad, cases := "", 0
+	var writeLens []int64
+	for n := int64(0); n <= 200; n++ {
+		writeLens = append(writeLens, n)
+	}
+	writeLens = append(writeLens, 255, 256, 257, 1000, 4099) // byte-count arithmetic beyond one byte
+	for nx := int64(0); nx < 64 && bad == ""; nx++ {
+		for _, n := range writeLens {
+			if bad != "" || n > 200 && nx%21 != 0 {
+				continue
+			}
+			L0 := int64(3*64) + nx
+			r := c14NewRun(im, f, nx)
+			w := r.walker()
+			w.state[lenKey], w.state[nxKey] = L0, nx
+			w.env.bind(p, n)
+			r.tag(w, p, "P", 0, true)
+			r.mem["P"] = make([]int64, 0, n)
+			for j := int64(0); j < n; j++ {
+				r.set("P", j, c14In+j)
+			}
+			end := w.walk(f.Blocks[0], nil)
+			cases++
+			id := fmt.Sprintf("%d buffered, Write of %d bytes: ", nx, n)
+			if end != "return" {
+				if end == "panic" {
+					bad = id + "Write panics"
+					break
+				}
+				c.undecided("C14.buffering", im.pkg+" Write", f, id+"interpretation ended with "+end+": "+w.why)
+				return
+			}
+			stream := make([]int64, 0, nx+n)
+			for i := int64(0); i < nx; i++ {
+				stream = append(stream, c14Buf+i)
+			}
+			for j := int64(0); j < n; j++ {
+				stream = append(stream, c14In+j)
+			}
+			T := nx + n
+			ret, okRet := w.env.eval(retVal(w.last.(*ssa.Return), 0))
+			diff, unknown := c14Diff(r.blocks, stream[:T/64*64])
+			if unknown {
+				c.undecided("C14.buffering", im.pkg+" Write", f, id+"the interpretation could not determine the data compressed: "+diff)
+				return
+			}
+			switch {
+			case r.problem != "":
+				bad = id + r.problem
+			case w.oob:
+				bad = id + "a slice or index expression leaves its bounds"
+			case diff != "":
+				bad = id + diff + " — Write must compress the whole blocks of buffered ‖ written bytes in order"
+			case w.state[nxKey] != T%64:
+				bad = fmt.Sprintf("%sbuffer fill afterwards %d, expected %d", id, w.state[nxKey], T%64)
+			case w.state[lenKey] != L0+n:
+				bad = fmt.Sprintf("%sbyte count grows by %d, expected %d", id, w.state[lenKey]-L0, n)
+			case !okRet || ret != n:
+				bad = fmt.Sprintf("%sWrite does not return len(p)", id)
+			default:
+				for i := int64(0); i < T%64; i++ {
+					if got := r.get("X", i); got != stream[T/64*64+i] {
+						bad = fmt.Sprintf("%sbuffer byte %d afterwards is %s, expected %s", id, i, c14Show(got), c14Show(stream[T/64*64+i]))
+						break
 					}
 				}
 			}
 		}
-	})
-	c.check(ok80, "C14.padding", pkg+" padding first byte", f, "padding buffer starts with 0x80", "the padding does not start with the 0x80 marker byte")
+	}
+	c.check(bad == "", "C14.buffering", im.pkg+" Write", f, fmt.Sprintf("%d (fill, length) cases interpreted: whole blocks of buffered ‖ written bytes compressed in order, remainder buffered, fill = count mod 64 preserved", cases), bad)
 }
